@@ -157,13 +157,15 @@ class BaseValidator(object):
           :py:meth:`cutplace.checks.AbstractCheck.check_at_end` fails.
         """
         if not self._is_closed:
+            # Mark as closed first so a check failing at the end does not cause
+            # the checks to be performed and cleaned up again by a later close().
+            self._is_closed = True
             try:
                 for check_name in self.cid.check_names:
                     self.cid.check_map[check_name].check_at_end(self.location)
             finally:
                 for check in self.cid.check_map.values():
                     check.cleanup()
-            self._is_closed = True
 
 
 class Reader(BaseValidator):
